@@ -1,4 +1,4 @@
-import MuscleModel.Containers.QProofs2
+import MuscleModel.Containers.QProofs3
 
 /-! C16: the operations of one Queue as a step function, the refinement theorem over all of them, histories. -/
 
@@ -27,9 +27,24 @@ inductive Op (α : Type) where
   | sort (lt : α → α → Bool) (from_ to : Nat)
   | normalize
   | equals (xs : List α) | startsWith (xs : List α) | endsWith (xs : List α)
+  | compare (lt : α → α → Bool) (xs : List α)
+  | indexOf (v : α) (startAt endAt1 : Nat) | lastIndexOf (v : α) (startAt endAt : Nat)
+  | removeFirst (v : α) | removeLast (v : α) | removeAll (v : α)
+  | insertSortedPos (lt : α → α → Bool) (v : α)
+  | removeSortedDups | removeDups (lt : α → α → Bool)
+  | reverse (from_ to : Nat)
+  /-- no-argument `AddTailAndGet()` / `AddHeadAndGet()` without a following write -/
+  | addTailRaw | addHeadRaw
+
+/-- the API specifies the result of the call: everything except the no-argument `AddTailAndGet()`/`AddHeadAndGet()`
+    of a TRIVIAL item type, whose new item is documented as uninitialised -/
+def Op.specified (c : ItemCfg α) : Op α → Prop
+  | .addTailRaw => c.clear = true
+  | .addHeadRaw => c.clear = true
+  | _ => True
 
 inductive Res (α : Type) where
-  | ok | err | item (v : α) | num (n : Nat) | bool (b : Bool)
+  | ok | err | item (v : α) | num (n : Nat) | bool (b : Bool) | idx (o : Option Nat)
   deriving DecidableEq
 
 /-- the real code, one public call.  (`swap` with a bad index is an assertion failure in C++; here the call is refused.) -/
@@ -61,6 +76,18 @@ def Ring.step (q : Ring α) : Op α → Ring α × Res α
   | .equals xs => (q, .bool (q.equals c xs))
   | .startsWith xs => (q, .bool (q.startsWith c xs))
   | .endsWith xs => (q, .bool (q.endsWith c xs))
+  | .compare lt xs => (q, .num (lexCompare lt (q.abs c) xs))
+  | .indexOf v a b => (q, .idx (q.indexOf c v a b))
+  | .lastIndexOf v a b => (q, .idx (q.lastIndexOf c v a b))
+  | .removeFirst v => let r := q.removeFirst c v; (r.1, if r.2 then .ok else .err)
+  | .removeLast v => let r := q.removeLast c v; (r.1, if r.2 then .ok else .err)
+  | .removeAll v => let r := q.removeAll c v; (r.1, .num r.2)
+  | .insertSortedPos lt v => let r := q.insertSortedPos c lt v; (r.1, .num r.2)
+  | .removeSortedDups => let r := q.removeSortedDups c; (r.1, .num r.2)
+  | .removeDups lt => let r := q.removeDups c lt; (r.1, .num r.2)
+  | .reverse a b => (q.reverse c a b, .ok)
+  | .addTailRaw => (q.addTailRaw c, .ok)
+  | .addHeadRaw => (q.addHeadRaw c, .ok)
 
 namespace Spec
 /-- the ideal sequence, one operation -/
@@ -92,6 +119,18 @@ def step (dflt junk : α) (l : List α) : Op α → List α × Res α
   | .equals xs => (l, .bool (equals l xs))
   | .startsWith xs => (l, .bool (startsWith l xs))
   | .endsWith xs => (l, .bool (endsWith l xs))
+  | .compare lt xs => (l, .num (lexCompare lt l xs))
+  | .indexOf v a b => (l, .idx (indexOf l v a b))
+  | .lastIndexOf v a b => (l, .idx (lastIndexOf l v a b))
+  | .removeFirst v => let r := removeFirst l v; (r.1, if r.2 then .ok else .err)
+  | .removeLast v => let r := removeLast l v; (r.1, if r.2 then .ok else .err)
+  | .removeAll v => let r := removeAll l v; (r.1, .num r.2)
+  | .insertSortedPos lt v => let r := insertSortedPos lt junk l v; (r.1, .num r.2)
+  | .removeSortedDups => let r := removeSortedDups l; (r.1, .num r.2)
+  | .removeDups lt => let r := removeSortedDups (sort (stableSort lt) l 0 l.length); (r.1, .num r.2)
+  | .reverse a b => (reverse l a b, .ok)
+  | .addTailRaw => (addTail l dflt, .ok)
+  | .addHeadRaw => (addHead l dflt, .ok)
 
 /-- the ideal operation is undefined: empty sequence, bad index -/
 def undefined (l : List α) : Op α → Prop
@@ -101,6 +140,8 @@ def undefined (l : List α) : Op α → Prop
   | .replaceItemAt i _ => l.length ≤ i
   | .removeItemAt i => l.length ≤ i
   | .swap i j => ¬ (i < l.length ∧ j < l.length)
+  | .removeFirst v => (removeFirst l v).2 = false
+  | .removeLast v => (removeLast l v).2 = false
   | _ => False
 end Spec
 
@@ -116,7 +157,7 @@ theorem clean_replaceItemAt (q : Ring α) (hI : Inv c q) (hC : Clean c q) (i : N
   · simp [h]; exact hC
   · simp [h]; exact clean_put c q hI hC i (by omega) v
 
-theorem step_refines (q : Ring α) (hG : Good c q) (op : Op α) :
+theorem step_refines (q : Ring α) (hG : Good c q) (op : Op α) (hs : op.specified c) :
     Good c (q.step c op).1 ∧ (q.step c op).1.abs c = (Spec.step c.dflt c.junk (q.abs c) op).1 ∧
     (q.step c op).2 = (Spec.step c.dflt c.junk (q.abs c) op).2 := by
   obtain ⟨hI, hC⟩ := hG
@@ -190,8 +231,50 @@ theorem step_refines (q : Ring α) (hG : Good c q) (op : Op α) :
   | equals xs => exact ⟨⟨hI, hC⟩, rfl, by simp only [Ring.step, Spec.step, equals_refines]⟩
   | startsWith xs => exact ⟨⟨hI, hC⟩, rfl, by simp only [Ring.step, Spec.step, startsWith_refines]⟩
   | endsWith xs => exact ⟨⟨hI, hC⟩, rfl, by simp only [Ring.step, Spec.step, endsWith_refines]⟩
+  | compare lt xs => exact ⟨⟨hI, hC⟩, rfl, rfl⟩
+  | indexOf v a b => exact ⟨⟨hI, hC⟩, rfl, by simp only [Ring.step, Spec.step, indexOf_refines]⟩
+  | lastIndexOf v a b => exact ⟨⟨hI, hC⟩, rfl, by simp only [Ring.step, Spec.step, lastIndexOf_refines]⟩
+  | removeFirst v =>
+    obtain ⟨g, h⟩ := removeFirst_refines c q ⟨hI, hC⟩ v
+    simp only [Prod.ext_iff] at h
+    exact ⟨g, h.1, by simp only [Ring.step, Spec.step, h.2]⟩
+  | removeLast v =>
+    obtain ⟨g, h⟩ := removeLast_refines c q ⟨hI, hC⟩ v
+    simp only [Prod.ext_iff] at h
+    exact ⟨g, h.1, by simp only [Ring.step, Spec.step, h.2]⟩
+  | removeAll v =>
+    obtain ⟨g, h⟩ := removeAll_refines c q ⟨hI, hC⟩ v
+    simp only [Prod.ext_iff] at h
+    exact ⟨g, h.1, by simp only [Ring.step, Spec.step, h.2]⟩
+  | insertSortedPos lt v =>
+    obtain ⟨g, h⟩ := insertSortedPos_refines c q ⟨hI, hC⟩ lt v
+    simp only [Prod.ext_iff] at h
+    exact ⟨g, h.1, by simp only [Ring.step, Spec.step, h.2]⟩
+  | removeSortedDups =>
+    obtain ⟨g, h⟩ := removeSortedDups_refines c q ⟨hI, hC⟩
+    simp only [Prod.ext_iff] at h
+    exact ⟨g, h.1, by simp only [Ring.step, Spec.step, h.2]⟩
+  | removeDups lt =>
+    obtain ⟨g, h⟩ := removeDups_refines c q ⟨hI, hC⟩ lt
+    simp only [Prod.ext_iff] at h
+    exact ⟨g, h.1, by simp only [Ring.step, Spec.step, h.2]⟩
+  | reverse a b => exact ⟨(reverse_refines c q ⟨hI, hC⟩ a b).1, (reverse_refines c q ⟨hI, hC⟩ a b).2, rfl⟩
+  | addTailRaw =>
+    have hcl : c.clear = true := hs
+    have e : q.addTailRaw c = q.addTail c c.dflt := by
+      have := addTailRaw_eq c q; rw [addTailRaw_default c hcl q ⟨hI, hC⟩] at this; exact this
+    obtain ⟨a1, a2, a3⟩ := addTail_refines c q hI hC c.dflt
+    simp only [Ring.step, Spec.step, e]
+    exact ⟨⟨a1, a3⟩, a2, trivial⟩
+  | addHeadRaw =>
+    have hcl : c.clear = true := hs
+    have e : q.addHeadRaw c = q.addHead c c.dflt := by
+      have := addHeadRaw_eq c q; rw [addHeadRaw_default c hcl q ⟨hI, hC⟩] at this; exact this
+    obtain ⟨a1, a2, a3⟩ := addHead_refines c q hI hC c.dflt
+    simp only [Ring.step, Spec.step, e]
+    exact ⟨⟨a1, a3⟩, a2, trivial⟩
 
-theorem step_failure (q : Ring α) (hG : Good c q) (op : Op α) :
+theorem step_failure (q : Ring α) (hG : Good c q) (op : Op α) (hs : op.specified c) :
     ((q.step c op).2 = .err ↔ Spec.undefined (q.abs c) op) ∧ ((q.step c op).2 = .err → (q.step c op).1 = q) := by
   cases op with
   | removeHead =>
@@ -223,6 +306,40 @@ theorem step_failure (q : Ring α) (hG : Good c q) (op : Op α) :
   | normalize =>
     have := (normalize_refines c q hG).2.2
     simp [Ring.step, Spec.undefined, this]
+  | removeFirst v =>
+    obtain ⟨_, h⟩ := removeFirst_refines c q hG v
+    simp only [Prod.ext_iff] at h
+    simp only [Ring.step, Spec.undefined, ← h.2]
+    constructor
+    · cases hr : (q.removeFirst c v).2 <;> simp
+    · intro he
+      have hf : (q.removeFirst c v).2 = false := by cases hr : (q.removeFirst c v).2 <;> simp [hr] at he ⊢
+      unfold Ring.removeFirst at hf ⊢
+      cases hfu : Ring.findUp c q v 0 q.count with
+      | none => rfl
+      | some i =>
+        rw [hfu] at hf; simp only at hf ⊢
+        unfold Ring.removeItemAt at hf ⊢
+        by_cases hi : i ≥ q.count
+        · simp [hi]
+        · simp [hi] at hf
+  | removeLast v =>
+    obtain ⟨_, h⟩ := removeLast_refines c q hG v
+    simp only [Prod.ext_iff] at h
+    simp only [Ring.step, Spec.undefined, ← h.2]
+    constructor
+    · cases hr : (q.removeLast c v).2 <;> simp
+    · intro he
+      have hf : (q.removeLast c v).2 = false := by cases hr : (q.removeLast c v).2 <;> simp [hr] at he ⊢
+      unfold Ring.removeLast at hf ⊢
+      cases hfu : Ring.findDown c q v 0 q.count with
+      | none => rfl
+      | some i =>
+        rw [hfu] at hf; simp only at hf ⊢
+        unfold Ring.removeItemAt at hf ⊢
+        by_cases hi : i ≥ q.count
+        · simp [hi]
+        · simp [hi] at hf
   | _ => simp [Ring.step, Spec.undefined]
 
 theorem inv_empty : Inv c (Ring.empty c) := by
@@ -239,14 +356,14 @@ def Spec.exec (dflt junk : α) (l : List α) : List (Op α) → List α × List 
   | [] => (l, [])
   | op :: ops => let r := Spec.step dflt junk l op; let rest := Spec.exec dflt junk r.1 ops; (rest.1, r.2 :: rest.2)
 
-theorem exec_refines (q : Ring α) (hG : Good c q) (ops : List (Op α)) :
+theorem exec_refines (q : Ring α) (hG : Good c q) (ops : List (Op α)) (hs : ∀ op, op ∈ ops → op.specified c) :
     Good c (q.exec c ops).1 ∧ (q.exec c ops).1.abs c = (Spec.exec c.dflt c.junk (q.abs c) ops).1 ∧
     (q.exec c ops).2 = (Spec.exec c.dflt c.junk (q.abs c) ops).2 := by
   induction ops generalizing q with
   | nil => exact ⟨hG, rfl, rfl⟩
   | cons op ops ih =>
-    obtain ⟨h1, h2, h3⟩ := step_refines c q hG op
-    obtain ⟨i1, i2, i3⟩ := ih _ h1
+    obtain ⟨h1, h2, h3⟩ := step_refines c q hG op (hs op (by simp))
+    obtain ⟨i1, i2, i3⟩ := ih _ h1 (fun o ho => hs o (by simp [ho]))
     simp only [Ring.exec, Spec.exec]
     rw [← h2, ← h3]
     exact ⟨i1, i2, by rw [i3]⟩
@@ -268,6 +385,12 @@ inductive BOp (α : Type) where
   /-- `regs[r]` is replaced by `Queue(regs[s])` -/
   | copyCtor (r s : Nat)
 
+/-- every single-Queue call inside is specified by the API (see `Op.specified`) -/
+def BOp.specified (c : ItemCfg α) : BOp α → Prop
+  | .on _ op => op.specified c
+  | .fromQ _ _ f => ∀ xs, (f xs).specified c
+  | _ => True
+
 def upd {β : Type} (b : Nat → β) (r : Nat) (x : β) : Nat → β := fun i => if i = r then x else b i
 
 /-- the real code on a bank of Queues -/
@@ -288,13 +411,13 @@ def Spec.bankStep (dflt junk : α) (a : Nat → List α) : BOp α → (Nat → L
   | .moveCtor r s => if r = s then (a, .err) else (upd (upd a r (a s)) s [], .ok)
   | .copyCtor r s => if r = s then (a, .err) else (upd a r (a s), .ok)
 
-theorem bankStep_refines (b : Nat → Ring α) (hG : ∀ i, Good c (b i)) (op : BOp α) :
+theorem bankStep_refines (b : Nat → Ring α) (hG : ∀ i, Good c (b i)) (op : BOp α) (hs : op.specified c) :
     (∀ i, Good c ((bankStep c b op).1 i)) ∧
     (fun i => ((bankStep c b op).1 i).abs c) = (Spec.bankStep c.dflt c.junk (fun i => (b i).abs c) op).1 ∧
     (bankStep c b op).2 = (Spec.bankStep c.dflt c.junk (fun i => (b i).abs c) op).2 := by
   cases op with
   | on r op =>
-    obtain ⟨g, a, e⟩ := step_refines c (b r) (hG r) op
+    obtain ⟨g, a, e⟩ := step_refines c (b r) (hG r) op hs
     refine ⟨?_, ?_, e⟩
     · intro i; simp only [bankStep, upd]; by_cases h : i = r
       · simp only [h, if_true]; exact g
@@ -307,7 +430,7 @@ theorem bankStep_refines (b : Nat → Ring α) (hG : ∀ i, Good c (b i)) (op : 
     by_cases hrs : r = s
     · simp only [hrs, if_true]; exact ⟨hG, (by triv), (by triv)⟩
     · simp only [hrs, if_false]
-      obtain ⟨g, a, e⟩ := step_refines c (b r) (hG r) (f ((b s).abs c))
+      obtain ⟨g, a, e⟩ := step_refines c (b r) (hG r) (f ((b s).abs c)) (hs _)
       refine ⟨?_, ?_, e⟩
       · intro i; simp only [upd]; by_cases h : i = r
         · simp only [h, if_true]; exact g
@@ -389,15 +512,16 @@ def Spec.bankExec (dflt junk : α) (a : Nat → List α) : List (BOp α) → (Na
   | [] => (a, [])
   | op :: ops => let r := Spec.bankStep dflt junk a op; let rest := Spec.bankExec dflt junk r.1 ops; (rest.1, r.2 :: rest.2)
 
-theorem bankExec_refines (b : Nat → Ring α) (hG : ∀ i, Good c (b i)) (ops : List (BOp α)) :
+theorem bankExec_refines (b : Nat → Ring α) (hG : ∀ i, Good c (b i)) (ops : List (BOp α))
+    (hs : ∀ op, op ∈ ops → op.specified c) :
     (∀ i, Good c ((bankExec c b ops).1 i)) ∧
     (fun i => ((bankExec c b ops).1 i).abs c) = (Spec.bankExec c.dflt c.junk (fun i => (b i).abs c) ops).1 ∧
     (bankExec c b ops).2 = (Spec.bankExec c.dflt c.junk (fun i => (b i).abs c) ops).2 := by
   induction ops generalizing b with
   | nil => exact ⟨hG, rfl, rfl⟩
   | cons op ops ih =>
-    obtain ⟨h1, h2, h3⟩ := bankStep_refines c b hG op
-    obtain ⟨i1, i2, i3⟩ := ih _ h1
+    obtain ⟨h1, h2, h3⟩ := bankStep_refines c b hG op (hs op (by simp))
+    obtain ⟨i1, i2, i3⟩ := ih _ h1 (fun o ho => hs o (by simp [ho]))
     simp only [bankExec, Spec.bankExec]
     rw [← h2, ← h3]
     exact ⟨i1, i2, by rw [i3]⟩
